@@ -377,7 +377,7 @@ fn full_probe_large<G: CurveTag>(n1: usize, n2: usize, col: &mut Collector) -> V
         body.push(Op::AllocMul { l: Sc::MulReg(ScalarSpec::Small(1 + j as u64), 0), r: Sc::C(ScalarSpec::Small(2 + j as u64)) });
     }
     ops.push(Op::Closure(body));
-    let prog = Program { curve: G::CURVE, tlabel: 0, pre: vec![], ops, owned: false, cap_p: Cap::Big, cap_v: Cap::Big, party_cap: 1, seed: 909, pc: 0 };
+    let prog = Program { curve: G::CURVE, tlabel: 0, pre: vec![], ops, owned: false, cap_p: Cap::Big, cap_v: Cap::Big, party_cap: 1, seed: 909, pc: 0, gens: 0 };
     let n = n1 + n2;
     let pj = |s: String| -> Value { json!({"large_circuit_gates": [n1, n2], "curve": G::CURVE.name(), "at": s}) };
     let p0 = run_prover::<G>(&prog, &ProveOpts { record: true, ..Default::default() });
